@@ -339,10 +339,15 @@ func runDL(c DLCase) core.Result {
 	dial := func(k int, b speer.Behaviour, fast bool, mse *refmse.Opts) *speer.Server {
 		var p *speer.Peer
 		var err error
+		slow := 0
 		for try := 0; try < 40; try++ {
-			p, err = speer.Dial(sess.IP(k), clientAddr, mkOpts(k, fast, mse), 2*time.Second)
+			p, err = speer.Dial(sess.IP(k), clientAddr, mkOpts(k, fast, mse), time.Duration(2+4*slow)*time.Second)
+			if err != nil && slow < 2 && (strings.Contains(err.Error(), "timeout") || strings.Contains(err.Error(), "deadline")) {
+				slow++ // a handshake that timed out (loaded machine): try again with more time
+				continue
+			}
 			if err == nil || !strings.Contains(err.Error(), "refused") {
-				break // only retry while the client's listener is not up yet
+				break // otherwise only retry while the client's listener is not up yet
 			}
 			time.Sleep(25 * time.Millisecond)
 		}
